@@ -214,6 +214,17 @@ class C09:
                     res.fail("C09|patchlevel|wrong-table|%d.%d" % vt, "get_opcode_module(%r) gives the table of %s, not of %d.%d" % (
                         vi, got.version_tuple, vt[0], vt[1]))
                     break
+        if vt[1] < 10:
+            # the historic float spelling of a version (2.4, 3.8): still accepted
+            for variant in ("", "pypy"):
+                n += 1
+                try:
+                    got = x.op_imports.get_opcode_module(float("%d.%d" % vt), variant)
+                except Exception:
+                    continue
+                if tuple(got.version_tuple[:2]) != vt:
+                    res.fail("C09|patchlevel|float-version|%d.%d" % vt, "get_opcode_module(%r, %r) gives the table of %s" % (
+                        float("%d.%d" % vt), variant, got.version_tuple))
         res.evals = n
         res.nt_keys = [["patchlevel", vt[0], vt[1]]]
         res.classes.append("patchlevel")
